@@ -86,7 +86,7 @@ def histories():
     H(S("A", "p", "x"), S("B", "p", "x"), RUN, S("A", "p", None), S("B", "p", None), RUN, S("B", "p", "x"), RUN)
     H(S("A", "dir/p", "x"), S("B", "dir/p", "x"), S("A", "keep", "k"), RUN, S("A", "dir/p", None), RUN, S("B", "dir/p", "x"), RUN)
     # damaged / foreign / missing archive: never a delete
-    for how in ("delete", "empty", "truncate", "garbage", "version", "version0", "foreign"):
+    for how in ("delete", "empty", "truncate", "garbage", "version", "version0", "foreign", "pair_prefix", "pair_blank"):
         H(S("A", "p", "1"), S("B", "p", "1"), S("A", "q", "1"), S("B", "q", "1"), RUN, S("A", "p", None), S("B", "q", "2"), {"archive": how}, RUN, RUN)
     # a .bak generation exists (two runs) when the main archive is lost: it must not be trusted
     H(S("A", "keep", "k"), S("B", "keep", "k"), S("A", "rep", "r"), RUN, S("B", "rep", None), RUN, S("A", "rep", "r"), {"archive": "delete"}, RUN)
@@ -100,6 +100,9 @@ def histories():
     # two conflicts on one path with the same winner and different losers: both losers must survive
     H(S("A", "f", "seed"), S("B", "f", "seed"), RUN, S("A", "f", "L1"), S("B", "f", "zzW"), RUN, S("B", "f", "interim"), RUN, S("A", "f", "L2"), S("B", "f", "zzW"), RUN)
     H(S("A", "f", "seed"), S("B", "f", "seed"), RUN, S("B", "f", "L1"), S("A", "f", "zzW"), RUN, S("A", "f", "interim"), RUN, S("B", "f", "L2"), S("A", "f", "zzW"), RUN)
+    # names that differ only in letter case are different paths: a conflict on one of them next to the other
+    H(S("A", "Notes", "1"), S("B", "Notes", "1"), S("A", "notes", "1"), S("B", "notes", "1"), RUN, S("A", "notes", "2"), S("B", "notes", "3"), RUN, RUN)
+    H(S("A", "d/x", "1"), S("B", "d/x", "1"), S("A", "d.x", "1"), S("B", "d.x", "1"), RUN, S("A", "d.x", "2"), S("B", "d.x", "3"), S("A", "d/x", "4"), RUN, RUN)
     # dry run, swapped roots
     H(S("A", "p", "1"), S("B", "q", "2"), {"run": "dry"}, RUN)
     H(S("A", "p", "1"), S("B", "p", "2"), {"swap": True}, RUN)
@@ -176,6 +179,32 @@ def sync_order_check(R, oid, key):
             return {"confirmed": True, "replay_path": R.save_replay(oid, c), "key": key,
                     "detail": "real system-call order of a bisync delivery (%s): the staged `.copia-tmp` copy is renamed into place without an fsync (%s)" % (prof, ops[:i + 1])}
     return {"confirmed": False, "detail": "strace: the staged copy is fsync'ed before the rename"}
+
+
+def long_name_check(R, oid, key):
+    """a file name so long that `<name>.copia-tmp` does not fit NAME_MAX: there is no room for a staging sibling, and then the
+    delivery must FAIL - never fall back to writing the live path in place (strace: no create/truncate/write of the live path)"""
+    import re
+    name = "n" * 250
+    for act, a, b, side in (("PropagateAtoB", {name: hx(b"new-content")}, {}, "B"), ("PropagateAtoB", {name: hx(b"new-content")}, {name: hx(b"old")}, "B"),
+                            ("PropagateBtoA", {}, {name: hx(b"new-content")}, "A")):
+        case = {"fn": "bisync_apply", "a": a, "b": b, "rel": name, "action": act}
+        for prof in ("dev", "release"):
+            ev, res = hubnative.strace_case(case, prof)
+            live = "/bworld/%s/%s" % (side, name)
+            # the oracle's own world set-up creates the live file once if the initial tree has it; any FURTHER create/truncate
+            # of the live path is the delivery writing in place
+            allowed = 1 if name in (b if side == "B" else a) else 0
+            creates = [(nm, args, rc) for nm, args, rc in ev if nm in ("openat", "open", "creat") and ('%s"' % live) in args and re.search(r"O_CREAT|O_TRUNC", args)]
+            if len(creates) > allowed:
+                nm, args, rc = creates[allowed]
+                c = dict(case)
+                c["observed"] = {prof: {"syscall": "%s(%s) = %s" % (nm, args[-120:], rc)}}
+                c["deviation"] = "the live path is created/truncated in place (no staging sibling fits a %d-byte name): a kill mid-copy leaves a torn file" % len(name)
+                c["strace"] = True
+                return {"confirmed": True, "replay_path": R.save_replay(oid, c), "key": key,
+                        "detail": "bisync %s of a %d-byte file name (%s): the destination is written in place: %s(..%s)" % (act, len(name), prof, nm, args[-60:])}
+    return {"confirmed": False, "detail": "strace: a name too long for a staging sibling is never written in place"}
 
 
 def stale_staging_check(R, oid, key):
@@ -299,6 +328,9 @@ def make_witness(R, pid, what):
             if r["confirmed"]:
                 return r
             r = stale_staging_check(R, oid, key)
+            if r["confirmed"]:
+                return r
+            r = long_name_check(R, oid, key)
             if r["confirmed"]:
                 return r
         if what == "run" and "saved-only-after" in name:
